@@ -1,5 +1,6 @@
 """C30 - running under asyncio gives the same schedule as the plain loop (DESIGN 2.C30)."""
 import ast
+import re
 
 from ..core import Mutant
 from .. import sched
@@ -23,7 +24,7 @@ def prologue(f):
             break
         if isinstance(st, ast.Expr) and isinstance(st.value, ast.Constant):
             continue
-        out.append(unparse(st))
+        out.append(re.sub(r"__i\d+\b", "__i", unparse(st)))      # expansion temporaries are numbered per call site
     return tuple(out)
 
 
